@@ -354,6 +354,19 @@ func runCluster(h *h3, hooks clusterHooks) *cluster {
 				h.s.Logf("crash %s", n.id)
 				h.crashNode(n.idx)
 			}
+		case "crashfs":
+			// the server dies inside one of its next commit log file operations (append, roll, truncation
+			// during reconciliation, checkpoint): process-crash model, the files keep what was written
+			var n *simNode
+			if op.Arg(0, 0)%3 != 2 {
+				n = c.leader()
+			}
+			if n == nil {
+				n = h.nodes[int(op.Arg(1, 0))%nn]
+			}
+			if n.up {
+				h.armFSCrash(n.idx, 1+int(op.Arg(3, 0))%8)
+			}
 		case "restart":
 			for k := 0; k < nn; k++ {
 				n := h.nodes[(int(op.Arg(0, 0))+k)%nn]
@@ -363,6 +376,11 @@ func runCluster(h *h3, hooks clusterHooks) *cluster {
 					h.s.Count("fault.server_restart")
 					if err := h.startNode(n.idx); err != nil && len(h.s.Panics) == 0 {
 						h.oc.Trouble = "restart: " + err.Error()
+					}
+					if op.Arg(2, 0)%5 == 0 {
+						// it dies again inside one of the first file operations after the restart: recovery
+						// of the log, truncation while reconciling with the leader, the first fetched appends
+						h.armFSCrash(n.idx, 1+int(op.Arg(3, 0))%10)
 					}
 					break
 				}
@@ -449,6 +467,7 @@ func runCluster(h *h3, hooks clusterHooks) *cluster {
 		return c
 	}
 	// faults stop: heal, restart what is down, let the cluster converge
+	h.disarmFSCrashes()
 	h.bus.HealAll()
 	h.cluster.Reevaluate()
 	h.bus.DropPerMille, h.bus.DelayPerMille = 0, 0
@@ -502,7 +521,7 @@ func (c *cluster) logOf(n *simNode) (map[int64]string, int64, int64) {
 	}
 	out := map[int64]string{}
 	var hw, newest int64 = -1, -1
-	c.h.do(n.node, "read-log", func() {
+	died := c.h.do(n.node, "read-log", func() {
 		if p.IsPaused() {
 			return
 		}
@@ -516,6 +535,9 @@ func (c *cluster) logOf(n *simNode) (map[int64]string, int64, int64) {
 		}
 		newest = p.log.NewestOffset()
 	})
+	if died || !n.up {
+		return nil, -1, -1 // the server died (fs-crash) while its log was being read: no view
+	}
 	return out, hw, newest
 }
 
